@@ -1396,6 +1396,9 @@ func (e *FEnc) mergeVals(conds []string, vs []*Val, prefix string) *Val {
 	for i, v := range vs {
 		e.fact(implies(conds[i], eq(n, e.term(v))))
 	}
+	if vs[0].Ty != nil {
+		e.typeFacts(n, vs[0].Ty, 0) // the merged value is one of the incoming ones: the type's range facts hold for it
+	}
 	return &Val{Ty: vs[0].Ty, Sort: sortName, T: n}
 }
 
